@@ -75,6 +75,8 @@ type recorder struct {
 	reentered []int
 	// imbalance: first parse step that returned with a different context than it was entered with
 	imbalance string
+	// pushMismatch: a plugin's own PushContext was not reflected by the answers straight afterwards
+	pushMismatch string
 }
 
 type exprRet struct {
@@ -442,13 +444,30 @@ func (x *installation) add(k byte, via bool) {
 				if in.bracket && idx == x.si-1 && ch.Bool(1, 8) {
 					// innermost party: the step runs inside the plugin's own context value
 					st.Inc("probe.step_bracketed_by_plugin_context_value")
-					if ch.Bool(1, 2) {
-						p.PushContext(parser.ContextType(7))
-					} else {
+					var pushed parser.ContextType
+					switch ch.Choose(4) {
+					case 0:
+						pushed = parser.ContextType(7)
+					case 1:
 						// a plugin scope that counts as a function (a lambda with an expression body, say)
-						p.PushContext(parser.FunctionContext)
+						pushed = parser.FunctionContext
 						x.bracketFunc++
 						defer func() { x.bracketFunc-- }()
+					case 2:
+						// a plugin construct whose body counts as top level again (a module body, say)
+						pushed = parser.GlobalContext
+						st.Inc("probe.step_bracketed_by_global_or_block_value")
+					case 3:
+						pushed = parser.BlockContext
+						st.Inc("probe.step_bracketed_by_global_or_block_value")
+					}
+					f0 := p.IsInFunction()
+					p.PushContext(pushed)
+					if c := p.CurrentContext(); c != pushed && r.pushMismatch == "" {
+						r.pushMismatch = fmt.Sprintf("after PushContext(%d) at token %s CurrentContext() answers %d", int(pushed), xutil.TokString(entry), int(c))
+					}
+					if f := p.IsInFunction(); f != (f0 || pushed == parser.FunctionContext) && r.pushMismatch == "" {
+						r.pushMismatch = fmt.Sprintf("after PushContext(%d) at token %s IsInFunction() answers %v, before the push it answered %v", int(pushed), xutil.TokString(entry), f, f0)
 					}
 					x.bracketDepth++
 					defer func() {
@@ -1373,6 +1392,9 @@ func (e *Engine) Run(prop string, ch *kernel.Chooser, st *kernel.Stats) kernel.R
 			}
 			// every step is balanced, on any input
 			for _, rr := range []*recorder{ref, rec} {
+				if rr.pushMismatch != "" {
+					add("C16", "pushed-context", "pushed-context", "a context value pushed by a plugin is not what the parser answers: "+rr.pushMismatch)
+				}
 				if rr.imbalance != "" {
 					add("C16", "step-balance", "step-balance", "a parse step returned with a different context than it was entered with: "+rr.imbalance)
 				}
